@@ -198,8 +198,33 @@ func idxList(pos []int) string {
 // ---- dataset ----
 
 type dataset struct {
-	objs map[string]map[string]obj // key -> id -> obj
-	ops  []string                  // the history, for the replay record
+	objs     map[string]map[string]obj // key -> id -> obj
+	ops      []string                  // the history, for the replay record
+	inflight [][]string                // writes sent but not yet answered (pipelined bulk load)
+}
+
+// send pipelines one write; flush reads the outstanding replies (at most 128 in flight).
+func (d *dataset) send(c *srv.Conn, args []string) {
+	if err := c.Send(args...); err != nil {
+		panic(fmt.Sprintf("transport error on %q: %v", args, err))
+	}
+	d.inflight = append(d.inflight, args)
+	if len(d.inflight) >= 128 {
+		d.flush(c)
+	}
+}
+
+func (d *dataset) flush(c *srv.Conn) {
+	for _, args := range d.inflight {
+		v, err := c.Read()
+		if err != nil {
+			panic(fmt.Sprintf("transport error on %q: %v", args, err))
+		}
+		if v.IsErr() {
+			panic(fmt.Sprintf("write failed: %q -> %s", args, v.String()))
+		}
+	}
+	d.inflight = nil
 }
 
 func grid(rng *rand.Rand, span int) float64 { return float64(rng.Intn(4*span+1))/2 - float64(span) }
@@ -232,10 +257,7 @@ func (d *dataset) set(c *srv.Conn, key string, o obj) {
 	case "string":
 		args = append(args, "STRING", o.val)
 	}
-	v := c.MustDo(args...)
-	if v.IsErr() {
-		panic(fmt.Sprintf("SET failed: %q -> %s", args, v.String()))
-	}
+	d.send(c, args)
 	if d.objs[key] == nil {
 		d.objs[key] = map[string]obj{}
 	}
@@ -261,7 +283,7 @@ func (d *dataset) set(c *srv.Conn, key string, o obj) {
 }
 
 func (d *dataset) del(c *srv.Conn, key, id string) {
-	c.MustDo("DEL", key, id)
+	d.send(c, []string{"DEL", key, id})
 	delete(d.objs[key], id)
 	d.ops = append(d.ops, "DEL "+key+" "+id)
 }
@@ -308,9 +330,23 @@ func randObj(rng *rand.Rand, id, key string) obj {
 	return o
 }
 
-func buildDataset(rng *rand.Rand, c *srv.Conn, r *hx.Result, fixed bool) *dataset {
+func buildDataset(rng *rand.Rand, c *srv.Conn, r *hx.Result, mode string) *dataset {
 	d := &dataset{objs: map[string]map[string]obj{}}
-	if fixed {
+	defer d.flush(c)
+	if mode == "big" {
+		// directed corpus: more than 255 index entries per iterator, so that pages cross the
+		// 256-entry yield steps of nextStep (visited entries 255, 511, ...): 300 points on a
+		// half-integer grid, 300 strings, 600 objects in the mixed key
+		for i := 0; i < 300; i++ {
+			la, lo := float64(i/20)/2-4, float64(i%20)/2-5
+			d.set(c, "pts", obj{id: fmt.Sprintf("p%04d", i), kind: "point", a: [4]float64{la, lo}, fields: map[string]int{"f": i % 5, "g": 1 + i%3}})
+			d.set(c, "strs", obj{id: fmt.Sprintf("s%04d", i), kind: "string", val: fmt.Sprintf("v%03d", (i*7)%300/2), fields: map[string]int{"f": i % 5}})
+			d.set(c, "mix", obj{id: fmt.Sprintf("p%04d", i), kind: "point", a: [4]float64{la, lo}, fields: map[string]int{"g": 1 + i%3}})
+			d.set(c, "mix", obj{id: fmt.Sprintf("s%04d", i), kind: "string", val: fmt.Sprintf("v%03d", i%150), fields: map[string]int{}})
+		}
+		return d
+	}
+	if mode == "fixed" {
 		// regression corpus: small fixed collections; LIMITs that hit exactly the end are part of
 		// the LIMIT sweep
 		for i, id := range []string{"a", "ab", "abc", "b", "b1", "c"} {
@@ -331,12 +367,20 @@ func buildDataset(rng *rand.Rand, c *srv.Conn, r *hx.Result, fixed bool) *datase
 	}
 	for _, key := range []string{"pts", "strs", "mix"} {
 		n := rng.Intn(26)
-		if rng.Intn(8) == 0 {
+		switch rng.Intn(8) {
+		case 0:
 			n = 0
+		case 1:
+			n = 270 + rng.Intn(130) // above the 256-entry yield step of nextStep
+			r.Dist("dataset:large")
 		}
 		pool := []string{}
 		for i := 0; i < n; i++ {
-			pool = append(pool, randID(rng))
+			id := randID(rng)
+			if n > 100 {
+				id += strconv.Itoa(i % 50)
+			}
+			pool = append(pool, id)
 		}
 		// history: inserts, overwrites (moves), deletes, re-inserts over a small id pool
 		for i := 0; i < 2*n; i++ {
@@ -421,7 +465,16 @@ type ctx struct {
 }
 
 func (x *ctx) fail(kind, sig, what string, q query, extra map[string]interface{}, impl, mod interface{}) {
-	cs := map[string]interface{}{"round": x.round, "query": strings.Join(q.argv("<cursor>", "<limit>", q.flt), " "), "history": x.d.ops}
+	cs := map[string]interface{}{"round": x.round, "query": strings.Join(q.argv("<cursor>", "<limit>", q.flt), " ")}
+	switch {
+	case x.round == 1:
+		cs["history"] = "directed corpus (buildDataset mode big): SET pts p%04d FIELD f i%5 FIELD g 1+i%3 POINT (i/20)/2-4 (i%20)/2-5 and SET strs s%04d FIELD f i%5 STRING v%03d((i*7)%300/2) for i = 0..299; mix = the same points + strings v%03d(i%150)"
+	case len(x.d.ops) <= 300:
+		cs["history"] = x.d.ops
+	default:
+		cs["history_len"] = len(x.d.ops)
+		cs["history_tail"] = x.d.ops[len(x.d.ops)-20:]
+	}
 	for k, v := range extra {
 		cs[k] = v
 	}
@@ -632,10 +685,13 @@ func (x *ctx) runQuery(q query, qi int) {
 	if !ok {
 		return
 	}
-	if src.n < 100 {
-		nol, err := do(x.c, q.argv("", "", q.flt))
-		if err == nil && (join(nol.ids) != join(unl.ids) || nol.cursor != "0") {
+	if nol, err := do(x.c, q.argv("", "", q.flt)); err == nil {
+		if src.n < 100 && (join(nol.ids) != join(unl.ids) || nol.cursor != "0") {
 			x.fail("oracle", "cursor-default-limit", "the query without LIMIT differs from LIMIT "+big+" on a collection with fewer than 100 entries", q, nil, nol.view(), unl.view())
+		}
+		// no LIMIT = the default of 100 items: the model's eff_limit
+		if mi, mc, raw := x.modelPage(src, "0", "0"); mc != nol.cursor || join(mi) != join(nol.ids) {
+			x.fail("correspondence", "cursor-page-model", "the query without LIMIT differs from Model.Cursor.page with the default limit (eff_limit 0 = 100)", q, nil, nol.view(), raw)
 		}
 	}
 	// the unlimited reply against the model (limit larger than everything)
@@ -644,8 +700,7 @@ func (x *ctx) runQuery(q query, qi int) {
 		x.fail("correspondence", "cursor-unlimited-model", "unlimited reply differs from Model.Cursor.page with a limit above the collection size", q, nil, unl.view(), raw)
 		return
 	}
-	maxL := src.n + 1
-	for L := 1; L <= maxL; L++ {
+	for _, L := range x.limits(src.n) {
 		ls := strconv.Itoa(L)
 		cursor := "0"
 		var all []string
@@ -719,6 +774,52 @@ func (x *ctx) runQuery(q query, qi int) {
 			x.fail("correspondence", "cursor-page-model", fmt.Sprintf("page (LIMIT %s CURSOR %s, cursor not returned by the server) differs from Model.Cursor.page", ls, cu), q,
 				map[string]interface{}{"limit": ls, "cursor": cu}, map[string]interface{}{"ids": p.ids, "cursor": p.cursor}, raw)
 		}
+	}
+}
+
+// limits: every LIMIT in 1..n+1 for small sources; for large ones the values around the
+// 256-entry yield steps of nextStep, around n, and a few random ones.
+func (x *ctx) limits(n int) []int {
+	var ls []int
+	if n <= 60 {
+		for L := 1; L <= n+1; L++ {
+			ls = append(ls, L)
+		}
+		return ls
+	}
+	seen := map[int]bool{}
+	for _, L := range []int{1, 7, 100, 254, 255, 256, 257, 299, 300, 301, 511, 512, n - 1, n, n + 1, 1 + x.rng.Intn(n), 1 + x.rng.Intn(n)} {
+		if L >= 1 && L <= n+1 && !seen[L] {
+			seen[L] = true
+			ls = append(ls, L)
+		}
+	}
+	return ls
+}
+
+func bigQueries() []query {
+	w := &[3]int{0, 1, 3}
+	all := []string{"BOUNDS", "-9", "-9", "9", "9"}
+	allg := verifapi.GeoBounds(-9, -9, 9, 9)
+	return []query{
+		{cmd: "scan", key: "pts", rad: -1},
+		{cmd: "scan", key: "pts", desc: 2, rad: -1},
+		{cmd: "scan", key: "pts", flt: filters{match: "p*"}, rad: -1},
+		{cmd: "scan", key: "pts", desc: 2, flt: filters{match: "p0*"}, rad: -1},
+		{cmd: "scan", key: "pts", flt: filters{where: w}, rad: -1},
+		{cmd: "scan", key: "mix", flt: filters{wherein: []int{2, 3}}, rad: -1},
+		{cmd: "search", key: "strs", rad: -1},
+		{cmd: "search", key: "strs", desc: 2, rad: -1},
+		{cmd: "search", key: "strs", flt: filters{match: "v*"}, rad: -1},
+		{cmd: "search", key: "strs", desc: 2, flt: filters{match: "v*", where: w}, rad: -1},
+		{cmd: "search", key: "mix", rad: -1},
+		{cmd: "within", key: "pts", area: all, ageo: allg, rad: -1},
+		{cmd: "intersects", key: "pts", area: all, ageo: allg, rad: -1},
+		{cmd: "intersects", key: "pts", flt: filters{where: w}, area: all, ageo: allg, rad: -1},
+		{cmd: "within", key: "mix", area: []string{"CIRCLE", "0.25", "0.25", "2000000"}, ageo: verifapi.GeoCircle(0.25, 0.25, 2000000), rad: -1},
+		{cmd: "nearby", key: "pts", area: []string{"POINT", "0.1", "0.2"}, lat: 0.1, lon: 0.2, rad: -1},
+		{cmd: "nearby", key: "pts", sdist: true, flt: filters{where: w}, area: []string{"POINT", "3", "-2"}, lat: 3, lon: -2, rad: -1},
+		{cmd: "nearby", key: "mix", area: []string{"POINT", "0.1", "0.2", "5000000"}, lat: 0.1, lon: 0.2, rad: 5000000},
 	}
 }
 
@@ -902,7 +1003,20 @@ func runC11(r *hx.Result, cfg hx.Config) {
 			c := s.MustDial()
 			defer c.Close()
 			x := &ctx{r: r, cfg: cfg, c: c, drv: drv, round: round, rng: rng}
-			x.d = buildDataset(rng, c, r, round == 0)
+			mode := "random"
+			switch round {
+			case 0:
+				mode = "fixed"
+			case 1:
+				mode = "big"
+			}
+			x.d = buildDataset(rng, c, r, mode)
+			if round == 1 {
+				for i, q := range bigQueries() {
+					x.runQuery(q, i)
+				}
+				return
+			}
 			if round == 0 {
 				for i, q := range fixedQueries() {
 					x.runQuery(q, i)
